@@ -126,7 +126,11 @@ class InplaceScale(torch.nn.Module):
 
 def _mk(kind, seed, aq="qint8", wq="qint8"):
     g = torch.Generator().manual_seed(seed)
-    m = torch.nn.Sequential(torch.nn.Linear(6, 5), InplaceScale(seed % 3), torch.nn.ReLU(), torch.nn.Linear(5, 3))
+    mods = [torch.nn.Linear(6, 5), InplaceScale(seed % 3), torch.nn.ReLU(), torch.nn.Linear(5, 3)]
+    if seed % 2:
+        # a normalisation layer WITHOUT learnable parameters (DiT / OLMo style): a quantized module that has no weight at all
+        mods.insert(3, torch.nn.LayerNorm(5, elementwise_affine=False))
+    m = torch.nn.Sequential(*mods)
     with torch.no_grad():
         for p in m.parameters():
             p.copy_(torch.randn(p.shape, generator=g) * 0.4)
